@@ -170,7 +170,9 @@ def run_case(case, ctx):
     for sub in subsets:
         sub = list(sub)
         rng.shuffle(sub)
-        rr = call(pa._spikes_in_clusters, sc, sub)
+        form = len(sub) % 3          # the request as list / tuple / NumPy array
+        sub_arg = sub if form == 0 else (tuple(sub) if form == 1 else np.array(sub, dtype=np.int64))
+        rr = call(pa._spikes_in_clusters, sc, sub_arg)
         if not rr.ok:
             ctx.violation('raised', dict(case, subset=sub), '_spikes_in_clusters raised %r' % rr.exc, feats, tb=rr.tb)
             continue
